@@ -145,7 +145,9 @@ func runC18Hist(toks []string) string {
 //	the process command of resolve.go (same options, same JSON, a dump after every P) with read operations between
 //	the runs:  T = yang.ToEntry on every module and submodule of the set (key order), followed by a Print of the
 //	           entry and the namespace / instantiating-module / read-only queries on its children;
-//	           C = ms.ClearEntryCache();  G<namehex> = ms.FindModule-free lookup ms.Modules[name] + ToEntry + Find("/")
+//	           C = ms.ClearEntryCache();
+//	and G<namehex> = ms.GetModule(name), which is a run: its errors and, when there are none, the full dump of the
+//	set are appended to "runs" exactly as for P.
 //	Reads produce no output: only what they leave behind matters.
 func runC18Proc(toks []string) string {
 	opts, ops := toks[0], toks[1]
@@ -200,9 +202,26 @@ func runC18Proc(toks []string) string {
 		case op == "C":
 			ms.ClearEntryCache()
 		case strings.HasPrefix(op, "G"):
-			if m := ms.Modules[string(unhex(op[1:]))]; m != nil {
-				read(m)
+			// ms.GetModule(name): a run (Process) and a read (ToEntry) in one; dumped like P
+			run := &runDump{Errors: []string{}, ErrPos: []string{}, TreeViol: []string{}, FindViol: []string{}}
+			e, errs := ms.GetModule(string(unhex(op[1:])))
+			for _, err := range errs {
+				s := err.Error()
+				run.Errors = append(run.Errors, s)
+				m := posRE.FindStringSubmatch(s)
+				if m != nil {
+					run.ErrPos = append(run.ErrPos, m[1]+":"+m[2]+":"+m[3])
+				} else {
+					run.ErrPos = append(run.ErrPos, "")
+				}
 			}
+			if len(errs) == 0 {
+				if e == nil {
+					run.TreeViol = append(run.TreeViol, "GetModule returned neither an entry nor an error")
+				}
+				dumpModules(ms, run, strings.Contains(opts, "f"))
+			}
+			out.Runs = append(out.Runs, run)
 		case strings.HasPrefix(op, "L"):
 			i, _ := strconv.Atoi(op[1:])
 			if err := ms.Parse(texts[i], names[i]); err != nil {
